@@ -37,6 +37,7 @@ def main():
     for case in payload["cases"]:
         signal.setitimer(signal.ITIMER_REAL, float(payload.get("case_timeout", 10)))
         implutil.ADV = case.get("adv")
+        implutil.BASE = case.get("base")
         del implutil.SPECLOG[:]
         rmod = mod if "family" not in case else importlib.import_module("impl_" + case["family"].lower())
         try:
